@@ -268,6 +268,30 @@ def pipeline(chk):
                 for dd in dirs:
                     shutil.rmtree(dd, ignore_errors=True)
         chk.traces += 1
+    # ---------------- S2d: one relationship in two versions whose end points moved (v1 A->B, v2 C->A), in one source: navigation from each end point, every option
+    A_, B_, C_ = 11, 21, 22
+    for swap in (False, True):
+        recs = [D.mk(A_, 1, name=1), D.mk(B_, 1, name=1), D.mk(C_, 1, name=2),
+                D.mk(D.T_REL * 10 + 1, 1, name=D.ABSENT, src=A_, tgt=B_, rtype=1), D.mk(D.T_REL * 10 + 1, 2, name=D.ABSENT, src=(B_ if swap else C_), tgt=A_, rtype=1)]
+        ref = {(r["id"], r["ver"]): D.build(r) for r in recs}
+        dd = tempfile.mkdtemp(prefix="c18r-", dir=chk.scratch)
+        try:
+            mem = stix2.MemoryStore([D.in_form("dict", [D.build(r)]) for r in recs], allow_custom=True)
+            fss = stix2.FileSystemStore(dd, allow_custom=True)
+            for r in recs:
+                fss.add(D.build(r))
+            comp = CompositeDataSource()
+            comp.add_data_sources([mem.source])
+            for front_name, front in (("memory", mem), ("fs", fss), ("composite", comp), ("environment", Environment(store=mem))):
+                for node in (A_, B_, C_):
+                    for src_only, tgt_only in ((False, False), (True, False), (False, True)):
+                        nav = {"rtype": 0, "src_only": src_only, "tgt_only": tgt_only}
+                        kw = dict(relationship_type=None, source_only=src_only, target_only=tgt_only)
+                        lines.append(read_line(310000 + len(lines), "relationships", front_name, recs, ref, lambda: front.relationships(D.sid(node), **kw), id_=node, nav=nav))
+                        lines.append(read_line(310000 + len(lines), "related_to", front_name, recs, ref, lambda: front.related_to(D.sid(node), **kw), id_=node, nav=nav))
+        finally:
+            shutil.rmtree(dd, ignore_errors=True)
+        chk.traces += 1
     # ---------------- S3: random populations: stores, three filter routes, composites in every attachment order, navigation
     for h in range(12 if quick else 500):
         recs = rand_universe(rng)
@@ -304,7 +328,7 @@ def pipeline(chk):
                     lines.append(read_line(tid, "all_versions", name, listed, pair.ref, lambda: store.all_versions(D.sid(id_)), id_=id_))
                 for q in range(6 if quick else 14):
                     fl = [rand_filter(rng, recs) for _ in range(rng.choice([0, 1, 1, 2, 3]))]
-                    att = [rand_filter(rng, recs) for _ in range(rng.choice([0, 0, 1]))]
+                    att = [rand_filter(rng, recs) for _ in range(rng.choice([0, 1, 1]))]
                     src = store.source
                     src.filters.add([D.conc_filter(f, rng) for f in att])
                     try:
@@ -321,6 +345,12 @@ def pipeline(chk):
                         else:
                             lines.append(read_line(tid, "query", name, listed, pair.ref, lambda: store.query([D.conc_filter(f, rng) for f in fl]), filters=fl + att,
                                                    extra={"routes": {"argument": len(fl), "attached": len(att)}}))
+                        if att:
+                            # lookups by id under the attached filters: every version is checked against them, not only the first one
+                            multi = [i for i in ids if len([r for r in recs if r["id"] == i]) >= 2] or ids
+                            for id_ in multi[:2]:
+                                lines.append(read_line(tid, "all_versions", name, listed, pair.ref, lambda: store.all_versions(D.sid(id_)), id_=id_, filters=att, extra={"routes": {"attached": len(att)}}))
+                                lines.append(read_line(tid, "get", name, listed, pair.ref, lambda: store.get(D.sid(id_)), id_=id_, filters=att, extra={"routes": {"attached": len(att)}}))
                     finally:
                         src.filters.remove([f for f in list(src.filters)])
             # timestamp filters whose value lies strictly between two instants a STIX 2.0 object could have (2.0 keeps milliseconds, the value has finer digits): the value is
@@ -371,7 +401,7 @@ def pipeline(chk):
                     lines.append(read_line(tid, "call_versions", front_name, union, ref, lambda: front.all_versions(D.sid(id_)), id_=id_, extra={"member_order": order}))
                 for q in range(3 if quick else 8):
                     fl = [rand_filter(rng, recs) for _ in range(rng.choice([0, 1, 2]))]
-                    catt = [rand_filter(rng, recs) for _ in range(rng.choice([0, 0, 1]))]
+                    catt = [rand_filter(rng, recs) for _ in range(rng.choice([0, 1, 1]))]
                     comp.filters.add([D.conc_filter(f, rng) for f in catt])
                     try:
                         lines.append(read_line(tid, "cquery", front_name, union, ref, lambda: front.query([D.conc_filter(f, rng) for f in fl]), filters=fl + catt,
